@@ -3,7 +3,8 @@
     never axiomatised); [reachable] is the set of configurations of the reference interpreter
     reached from any top-level call or creation by any number of steps. *)
 From Coq Require Import List ZArith NArith Bool.
-From Kardia Require Import C10.U256 C10.EVM C10.ProofsArith C10.ProofsTables C10.ProofsInv Generated.C10Facts.
+From Kardia Require Import C10.U256 C10.EVM C10.ProofsArith C10.ProofsTables C10.ProofsInv C10.ProofsFrames
+  C10.ProofsStatic C10.ProofsGas Generated.C10Facts.
 Import ListNotations.
 Local Open Scope Z_scope.
 
@@ -27,6 +28,76 @@ Theorem C10_depth_bound : forall keccak blockhash e c,
     reachable keccak blockhash e c -> (length (c_frames c) <= 1025)%nat.
 Proof. exact depth_bound. Qed.
 Print Assumptions C10_depth_bound.
+
+(** static frames: in every reachable configuration the world is observationally equal (same logs;
+    same nonce, balance, code, storage and self-destruct mark at every address — only the existence
+    of empty "touched" accounts may differ) to the entry snapshot of every live static frame, and
+    no contract-creation frame is static *)
+Theorem C10_static_no_write : forall keccak blockhash e c p,
+    reachable keccak blockhash e c -> In p (c_frames c) -> f_static p = true ->
+    weqv (f_snap p) (c_world c) /\ f_kind p <> KCreate.
+Proof. exact static_no_write. Qed.
+Print Assumptions C10_static_no_write.
+
+(** ... and an opcode flagged [writes] in the real table, or a CALL carrying value, ends a static
+    frame with an error *)
+Theorem C10_static_write_fails : forall keccak blockhash e c f rest info,
+    c_status c = Running -> c_frames c = f :: rest -> f_static f = true ->
+    op_info e (cur_op f) = Some info ->
+    (oi_writes info = true \/ (cur_op f = 241 /\ sk (f_stack f) 2 <> 0)) ->
+    (exists er, step keccak blockhash e c = fail er f (c_world c) rest) \/
+    step keccak blockhash e c = mk_config (f :: rest) (c_world c) Unsupported.
+Proof. exact static_write_fails. Qed.
+Print Assumptions C10_static_write_fails.
+
+(** side condition on the generated table: every model instruction that changes storage, logs,
+    balances, code or the account set is flagged [writes] in the real table *)
+Theorem C10_model_writes_flagged : forall keccak blockhash e op info i,
+    op_info e op = Some info -> decode keccak blockhash op = Some i -> instr_writes i = true -> oi_writes info = true.
+Proof. exact model_writes_flagged. Qed.
+Print Assumptions C10_model_writes_flagged.
+
+(** a frame that ends with a revert or an error leaves no state change: the step that ends frame [f]
+    yields an outcome [o1] (what the embedder or the caller's stack sees); unless [o1] is success the
+    world is exactly the snapshot taken when [f] was entered *)
+Theorem C10_failed_frame_no_change : forall keccak blockhash e c f rest,
+    c_status c = Running -> c_frames c = f :: rest ->
+    (length (c_frames (step keccak blockhash e c)) <= length rest)%nat ->
+    exists o1 : outcome,
+      (o1 <> OOk -> c_world (step keccak blockhash e c) = f_snap f) /\
+      match rest with
+      | [] => exists ret g, c_status (step keccak blockhash e c) = Final o1 ret g
+      | p :: rest' => exists p', c_frames (step keccak blockhash e c) = p' :: rest' /\ sig p' = sig p /\
+                                 hd 0 (f_stack p') = (if is_ok o1 then (if is_create (f_kind f) then f_self f else 1) else 0)
+      end.
+Proof. exact failed_frame_no_change. Qed.
+Print Assumptions C10_failed_frame_no_change.
+
+(** the snapshot is the world at frame entry (after the creator's nonce bump for creations, which
+    KVM keeps too) ... *)
+Theorem C10_entered_frame_snapshot : forall keccak blockhash e c f rest,
+    c_status c = Running -> c_frames c = f :: rest ->
+    (length (c_frames (step keccak blockhash e c)) > length (c_frames c))%nat ->
+    exists child f', c_frames (step keccak blockhash e c) = child :: f' :: rest /\ sig f' = sig f /\
+                     f_stack child = [] /\ entry_world (c_world c) (f_self f) child.
+Proof. exact entered_frame_snapshot. Qed.
+Print Assumptions C10_entered_frame_snapshot.
+
+(** ... and the entry data (kind, address, static flag, snapshot) of a live frame never changes *)
+Theorem C10_live_frames_keep_sig : forall keccak blockhash e c f rest,
+    c_status c = Running -> c_frames c = f :: rest ->
+    (exists top, map sig (c_frames (step keccak blockhash e c)) = top ++ map sig (f :: rest)) \/
+    map sig (c_frames (step keccak blockhash e c)) = map sig rest.
+Proof. exact live_frames_keep_sig. Qed.
+Print Assumptions C10_live_frames_keep_sig.
+
+(** gas is never negative, in any frame of any configuration reachable from a call or creation
+    that was given non-negative gas, nor in the final result *)
+Theorem C10_gas_never_negative : forall keccak blockhash e c, reachable_g keccak blockhash e c ->
+    (forall f, In f (c_frames c) -> 0 <= f_gas f) /\
+    (forall o ret g, c_status c = Final o ret g -> 0 <= g).
+Proof. exact gas_never_negative. Qed.
+Print Assumptions C10_gas_never_negative.
 
 (** arithmetic against the mathematical definitions *)
 Theorem C10_sdiv_spec : forall a b, is_word a -> is_word b -> b <> 0 ->
